@@ -174,6 +174,8 @@ func (w *workerProc) run(j job) attempt {
 type decStats struct {
 	cases, accepted, rejected, panics, allocs, killed, recycled, restarts atomic.Int64
 	maxAlloc                                                              atomic.Uint64
+	maxOver                                                               atomic.Uint64
+	maxOverAt                                                             atomic.Value
 }
 
 func coreFrameFromDump(dump string) string {
@@ -257,6 +259,15 @@ func runUnit(c *vf.Ctx, slot **workerProc, u unit, from, to uint64, st *decStats
 		for {
 			old := st.maxAlloc.Load()
 			if res.MaxAlloc <= old || st.maxAlloc.CompareAndSwap(old, res.MaxAlloc) {
+				break
+			}
+		}
+		for {
+			old := st.maxOver.Load()
+			if res.MaxOver <= old || st.maxOver.CompareAndSwap(old, res.MaxOver) {
+				if res.MaxOver > old {
+					st.maxOverAt.Store(u.entry + " / " + u.label)
+				}
 				break
 			}
 		}
@@ -429,9 +440,9 @@ func corpus(c *vf.Ctx) (units []unit, perPkg map[string]map[string]int) {
 func runDecoders(c *vf.Ctx) {
 	codec.Seed = c.Seed
 	c.Set("rule", "decoder half: for every inventory codec (same inventory as C11) and every text entry point, for every base encoding of the (capped) C11 domain: "+
-		"every proper prefix; every byte position x {0x00,0x01,0x7F,0x80,0xFF,b^1,b+1}; every 8-byte window x {0,1,2^31,2^32,2^40,2^62,2^63,2^64-1} little-endian; "+
+		"every proper prefix; every byte position x {0x00,0x01,0x7F,0x80,0xFF,b^1,b+1}; every 8-byte window x {0,1,2^31,2^32,2^40,2^62,2^63,2^64-1} little-endian; every 8-byte window set to 131072 and followed by 131072 bytes of 0xFF instead of the rest (a count that equals the bytes left); "+
 		"texts: every position x 12-symbol alphabet, every deletion, every duplication, length -1,-2,+1,+2,x2. A case is non-trivial when it is a distinct (entry, input) pair")
-	c.Assume("allocation is measured with runtime/metrics /gc/heap/allocs:bytes around a single-goroutine decode in the worker (large objects are accounted immediately; small-class lag is far below the 64 MiB allowance)")
+	c.Assume("allocation is measured with runtime/metrics /gc/heap/allocs:bytes around a single-goroutine decode in the worker (large objects are accounted immediately; small-class lag is far below the 8 MiB constant of the allowance)")
 	c.Assume("workers run with RLIMIT_AS = 4 GiB set by the worker itself before decoding; a worker that dies is a violation attributed to the case index it stored in shared memory before decoding")
 	c.Assume("termination: a decode that makes no progress for 120 s is declared non-terminating (never observed); no other use of wall-clock time")
 	if _, err := codec.ChainVals(); err != nil {
@@ -445,7 +456,7 @@ func runDecoders(c *vf.Ctx) {
 	c.Set("corpus_per_package", perPkg)
 	c.Set("base_inputs", len(units))
 	c.Set("planned_cases", totalCases)
-	c.Set("allocation_bound", "64 MiB + 1024 * len(input)")
+	c.Set("allocation_bound", "8 MiB + 64 * len(input)")
 	c.Set("worker_address_space_limit_bytes", addressSpace)
 
 	sort.SliceStable(units, func(i, j int) bool {
@@ -489,6 +500,10 @@ func runDecoders(c *vf.Ctx) {
 	c.Count("workers_recycled_after_large_allocation", st.recycled.Load())
 	c.Count("worker_processes_started", st.restarts.Load())
 	c.Set("max_allocation_of_one_decode_bytes", st.maxAlloc.Load())
+	c.Set("max_allocation_in_excess_of_64_bytes_per_input_byte", st.maxOver.Load())
+	if v := st.maxOverAt.Load(); v != nil {
+		c.Set("max_excess_allocation_at", v)
+	}
 	c.Set("distinct_outcomes", map[string]int64{"accepted": st.accepted.Load(), "rejected": st.rejected.Load(), "panic": st.panics.Load(),
 		"over_allocation_bound": st.allocs.Load(), "worker_killed": st.killed.Load()})
 	if uint64(st.cases.Load()) < totalCases && !c.Expired() {
@@ -510,7 +525,7 @@ func families(kind int) []string {
 	if kind == kindText {
 		return []string{"text-substitute", "text-delete", "text-duplicate", "text-length"}
 	}
-	return []string{"prefix", "byte-sub", "u64-window"}
+	return []string{"prefix", "byte-sub", "u64-window", "padded-count"}
 }
 
 // distinctInputs counts the distinct inputs per base exactly (64-bit hash of
